@@ -522,6 +522,22 @@ fn max_energy_error(rig: &mut dyn Rig, c: &Case, eps: f64, steps: usize) -> Opti
     Some(worst)
 }
 
+/// Observed convergence order of a judged case (calibration helper).
+pub fn order_estimate(c: &Case) -> Option<f64> {
+    let mut rig = build_rig(dens_for(&c.dens), &c.trans, c.kind);
+    let e1 = max_energy_error(rig.as_mut(), c, c.eps, 4)?;
+    let e2 = max_energy_error(rig.as_mut(), c, c.eps / 2.0, 8)?;
+    let e3 = max_energy_error(rig.as_mut(), c, c.eps / 4.0, 16)?;
+    if !(e1 > 1e-9 && e1 < 0.02 && e3 > 1e-13) {
+        return None;
+    }
+    let (p1, p2) = ((e1 / e2).log2(), (e2 / e3).log2());
+    if !((p1 - p2).abs() <= 0.4) {
+        return None;
+    }
+    Some((p1 + p2) / 2.0)
+}
+
 impl Part for Order {
     type Case = Case;
     fn name(&self) -> &'static str {
@@ -530,7 +546,7 @@ impl Part for Order {
     fn rule(&self) -> String {
         "same generator with small steps; max |energy error| over a fixed integration time with 4, 8 and 16 steps; \
          judged only where the errors follow one power law (log2 ratios of successive halvings agree within 0.4, error(4 steps) < 0.02): \
-         observed order >= 1.5 (leapfrog 2, a first-order scheme 1); non-trivial = judged case"
+         observed order >= 1.25, re-checked after one more halving (leapfrog 2, a first-order scheme 1; calibrated range on the unchanged tree 1.5..2.4); non-trivial = judged case"
             .into()
     }
     fn cases(&self, tier: Tier) -> usize {
@@ -573,11 +589,25 @@ impl Part for Order {
         }
         o.label("judged");
         o.nontrivial(format!("{}/{}/{}/{}", kind_name(c.kind), c.trans.class(), c.dens.class(), c.dens.dim()));
-        if !((p1 + p2) / 2.0 >= 1.5) {
-            o.set_fail(
-                format!("C02:order:{}", kind_name(c.kind)),
-                format!("max energy error {e1:e} (eps), {e2:e} (eps/2), {e3:e} (eps/4): observed order {:.2}, not second order", (p1 + p2) / 2.0),
-            );
+        // Calibration on the unchanged tree (610 000 judged cases): observed orders lie in [1.5, 2.4], the lower
+        // tail thins out by about 6x per 0.1. A failure needs an order < 1.25 that persists after one more
+        // halving of the step (a first-order scheme shows 1.0 both times).
+        if !((p1 + p2) / 2.0 >= 1.25) {
+            let e4 = max_energy_error(rig.as_mut(), c, c.eps / 8.0, 32);
+            let p3 = e4.map(|e4| (e3 / e4).log2());
+            if let Some(p3) = p3 {
+                if (p2 + p3) / 2.0 < 1.25 {
+                    o.set_fail(
+                        format!("C02:order:{}", kind_name(c.kind)),
+                        format!(
+                            "max energy error {e1:e} (eps), {e2:e} (eps/2), {e3:e} (eps/4), {:e} (eps/8): observed order {:.2} / {:.2}, not second order",
+                            e4.unwrap(),
+                            (p1 + p2) / 2.0,
+                            (p2 + p3) / 2.0
+                        ),
+                    );
+                }
+            }
         }
         o
     }
